@@ -143,12 +143,21 @@ def relayout(a, layout):
 
 
 def build_pose(case, layout="C"):
+    """`case["masked_input"]` (optional): hand the constructor a numpy.ma.MaskedArray instead of a plain array — "none": without any mask (what `fake_pose` does),
+    "partial": masking only every other point of confidence 0. The body's missing pattern is still `confidence == 0` (the constructor unites the two)."""
     from pose_format import Pose
     from pose_format.numpy import NumPyPoseBody
     b = case["body"]
     shape = (b["frames"], b["people"], b["points"], b["dims"])
     data = relayout(bits_to_f32(b["data"], shape), layout)
     conf = relayout(bits_to_f32(b["conf"], shape[:3]), layout)
+    mi = case.get("masked_input")
+    if mi == "none":
+        data = ma.masked_array(data)
+    elif mi == "partial":
+        zero = np.asarray(conf) == 0
+        keep = zero & (np.arange(zero.size).reshape(zero.shape) % 2 == 0)
+        data = ma.masked_array(data, mask=np.repeat(keep[..., None], shape[3], axis=-1))
     return Pose(build_header(case["header"]), NumPyPoseBody(fps_value(b["fps"]), data, conf))
 
 
